@@ -193,7 +193,7 @@ def run_rule(acc: Acc, engine, block, conclusions, tier: str, via_block: bool) -
     if not via_block:
         return
     # --- driver 2: RuleBlock.activate (General) with a second rule and optional weight --------------------------
-    for weight in (None, "0.500"):
+    for weight in (None, "0.500", "0.000"):
         wtext = RG.rule_text(RG.prop("i", (), "a"), conclusions, weight)
         r1 = fl.Rule.create(wtext, engine)
         r2 = fl.Rule.create("if i is a then o1 is very y and o2 is y", engine)
@@ -207,7 +207,7 @@ def run_rule(acc: Acc, engine, block, conclusions, tier: str, via_block: bool) -
             block.activate()
             acc.transitions += 1
             acc.case((wtext, str(x)), nontrivial=nontrivial)
-            w = 1.0 if weight is None else 0.5
+            w = 1.0 if weight is None else float(weight)
             exps, leaks = [], []
             for xv in rows:
                 d1 = w * xv  # Ramp(0,1): membership == x on [0,1]; NaN stays NaN
@@ -257,6 +257,17 @@ def run_rule(acc: Acc, engine, block, conclusions, tier: str, via_block: bool) -
         acc.violate("terms", {"variable": "original-of-copy"}, {**case0, "driver": "copy", "input": 0.5}, {}, leaked,
                     f"activating the copy's rule block added terms {leaked} to the ORIGINAL engine's fuzzy outputs")
     engine.input_variables[0].value = fl.scalar(0.5)
+    # --- driver 6: an engine whose components are given to the constructor as one-shot iterables ---------------------------
+    if via_block:
+        e6, _ = build_engine()
+        e6 = fl.Engine("e6", input_variables=iter(e6.input_variables), output_variables=iter(e6.output_variables),
+                       rule_blocks=iter([fl.RuleBlock("rb", conjunction=fl.Minimum(), disjunction=fl.Maximum(), implication=fl.AlgebraicProduct(),
+                                                       activation=fl.General(), rules=iter([fl.Rule.create(text)]))]))
+        e6.input_variables[0].value = fl.scalar(0.5)
+        e6.rule_blocks[0].activate()
+        acc.transitions += 1
+        compare(acc, {**case0, "driver": "iterables", "input": 0.5}, observe(e6), [expected(conclusions, 0.5, True)], e6.rule_blocks[0].implication, 1,
+                [expected_leak(conclusions, 0.5, True)])
     # --- driver 4: a rule that was disabled while the block was loaded and is enabled afterwards contributes normally ----
     late = fl.Rule.create(text)
     late.enabled = False
